@@ -121,6 +121,8 @@ pub struct Shapes {
     pub arr: [u8; 3],
     #[serde(skip_serializing_if = "Vec::is_empty")]
     pub skipped: Vec<u8>,
+    /// the last thing in the frame: a byte string of small values (two characters each)
+    pub tail: Blob,
 }
 
 pub fn shapes(pad: String, flags: u8) -> Shapes {
@@ -157,6 +159,7 @@ pub fn shapes(pad: String, flags: u8) -> Shapes {
         nested: [None, Some(None), Some(Some(7))][flags as usize % 3],
         arr: [flags, 0, 255],
         skipped: if flags & 16 != 0 { vec![1] } else { vec![] },
+        tail: Blob(if flags & 15 == 15 { (0..120u8).map(|i| i % 10).collect() } else { vec![] }),
     }
 }
 
